@@ -95,13 +95,18 @@ def gen_tx(rng):
     return {"version": rng.choice(B32), "ins": ins, "outs": outs, "lock_time": rng.choice(B32 + [500000000, 499999999])}
 
 
+_FIXED_PK = [b"\x21\x02" + bytes([7 + j]) * 32 for j in range(3)]
+
+
 def gen_script_code(rng):
     k = rng.randrange(12)
-    pk = b"\x21\x02" + bytes(rng.randrange(256) for _ in range(32))
+    # a third of the script codes come from a small fixed pool, so that the SAME script code meets many different
+    # transactions / inputs / amounts within one process (anything memoised on the script alone would show)
+    pk = rng.choice(_FIXED_PK) if rng.random() < 0.35 else b"\x21\x02" + bytes(rng.randrange(256) for _ in range(32))
     if k == 0:
         return b"", "empty"
     if k == 1:
-        return b"\x76\xa9\x14" + bytes(rng.randrange(256) for _ in range(20)) + b"\x88\xac", "p2pkh"
+        return b"\x76\xa9\x14" + (bytes([9]) * 20 if rng.random() < 0.4 else bytes(rng.randrange(256) for _ in range(20))) + b"\x88\xac", "p2pkh"
     if k == 2:
         return b"\x52" + pk + pk + b"\x52\xae", "multisig"
     if k == 3:
